@@ -39,5 +39,38 @@ package waitlist
 //@   ensures ledgerDelta(wl.bus.checker, coin) == old(ledgerDelta(wl.bus.checker, coin)) + old(value.val)
 //@   modifies wlItem(wl, address, pubkey, coin), wlCache, ledgerDelta(wl.bus.checker, coin), it != nil ? it.Value.val : nothing
 
+//@ # ---------------------------------------------------------------- C09: Commit writes every dirty wait list and clears the dirty set
+//@ # the tree key of an owner's wait list: the module prefix followed by the 20 address bytes
+//@ spec wlKey(a types.Address) string = bytechar(mainPrefix) + bytestr(a)
+//@ # ASSUMED: distinct addresses have distinct keys (concatenation and the byte view are uninterpreted)
+//@ axiom wlKeyInj: forall a types.Address, b types.Address :: wlKey(a) == wlKey(b) ==> a == b
+//@ # ASSUMED (sort and map-key collection are not modelled): the ordered key list holds exactly the dirty owners, once each
+//@ func (*WaitList).getOrderedDirty
+//@   trusted
+//@   ensures allkeys: forall a types.Address :: (a in wl.dirty) ==> exists i int :: 0 <= i && i < len(result) && result[i] == a
+//@   ensures onlykeys: forall i int :: 0 <= i && i < len(result) ==> (result[i] in wl.dirty)
+//@   ensures once: forall i int, j int :: 0 <= i && i < j && j < len(result) ==> result[i] != result[j]
+//@   ensures fresh(result)
+//@   modifies nothing
+//@ # C09: on success every wait list that was registered dirty has been written under its owner's key with its current
+//@ # encoding - or, when it is empty, removed from the tree and from the cache - and nothing stays registered
+//@ func (*WaitList).Commit
+//@   serves C09
+//@   let h = anyOwner()
+//@   let m = old(wl.list[h])
+//@   requires wl != nil && wl.dirty != nil && wl.list != nil && db != nil
+//@   requires cached: forall k types.Address :: (k in wl.dirty) ==> (k in wl.list) && wl.list[k] != nil && allocated(wl.list[k])
+//@   ensures [C09] written: result == nil && old(h in wl.dirty) && old(len(m.List)) != 0 ==> mtreeVal(db, wlKey(h)) == rlpOf(m)
+//@   ensures [C09] removed: result == nil && old(h in wl.dirty) && old(len(m.List)) == 0 ==> len(mtreeVal(db, wlKey(h))) == 0 && !(h in wl.list)
+//@   ensures [C09] cleared: result == nil ==> !(h in wl.dirty)
+//@   loop 0 invariant idx: -1 <= rangeindex && (rangeindex < len(dirty) || (rangeindex == -1 && len(dirty) == 0))
+//@   loop 0 invariant keys: forall i int :: 0 <= i && i < len(dirty) ==> old(dirty[i] in wl.dirty)
+//@   loop 0 invariant once: forall i int, j int :: 0 <= i && i < j && j < len(dirty) ==> dirty[i] != dirty[j]
+//@   loop 0 invariant pending: forall i int :: rangeindex < i && i < len(dirty) ==> (dirty[i] in wl.dirty) && (dirty[i] in wl.list) && wl.list[dirty[i]] == old(wl.list[dirty[i]])
+//@   loop 0 invariant subset: forall k types.Address :: (k in wl.dirty) ==> old(k in wl.dirty)
+//@   loop 0 invariant gone: forall i int :: 0 <= i && i <= rangeindex ==> !(dirty[i] in wl.dirty)
+//@   loop 0 invariant lists: allof(Model.List) == old(allof(Model.List))
+//@   loop 0 invariant done: forall i int :: 0 <= i && i <= rangeindex && dirty[i] == h ==> (old(len(m.List)) == 0 ? (len(mtreeVal(db, wlKey(h))) == 0 && !(h in wl.list)) : mtreeVal(db, wlKey(h)) == rlpOf(m))
+
 //@ # ---------------------------------------------------------------- lock discipline (C25)
 //@ guarded WaitList.list, WaitList.dirty by lock
